@@ -477,6 +477,36 @@ func monC19(c *runCtx) {
 			return "loaded"
 		}},
 	}
+	// the two configuration files go through one loader: the same bytes are refused, or accepted, in both places
+	{
+		localPath := filepath.Join(r.root, "config")
+		validLocal := r.files["config"]
+		probe := func(mk string, data []byte) {
+			os.WriteFile(localPath, data, 0o666)
+			os.WriteFile(homeCfg, validGlobal, 0o666)
+			_, errL := va.NewConfig(r.root)
+			os.WriteFile(localPath, validLocal, 0o666)
+			os.WriteFile(homeCfg, data, 0o666)
+			_, errG := va.NewConfig(r.root)
+			os.WriteFile(homeCfg, validGlobal, 0o666)
+			c.res.Evals++
+			c.oracle("C19.config-scopes-agree")
+			if (errL == nil) != (errG == nil) {
+				c.fail("C19.config-scopes-agree", "refused-in-one-scope-only", "NewConfig|"+mk, "the bytes %q as .goit/config: %v; as ~/.goitconfig: %v (a damaged file is either loaded or reported, wherever it lies)", clip(string(data), 120), errL, errG)
+			}
+		}
+		c.mutations(validGlobal, func(m mutation) {
+			if mine() {
+				probe(m.kind, m.data)
+			}
+		})
+		for i := 0; i < c.pick(200, 3000); i++ {
+			b := c.randomBytes()
+			if mine() {
+				probe("random", b)
+			}
+		}
+	}
 	cwd, _ := os.Getwd()
 	os.Chdir(r.w)
 	for _, t := range extra {
